@@ -11,14 +11,17 @@ CONF = ('maildir "%(R)s/src" {\n'
         '\tmatch header "X-Kind" /date/ and date > 1 seconds move "%(R)s/dst"\n'
         '\tmatch header "X-Kind" /body/ and body /hello/ move "%(R)s/dst"\n'
         '\tmatch header "X-Kind" /mime/ and attachment body /deep/ move "%(R)s/dst"\n'
+        '\tmatch header "X-Kind" /attblk/ attachment { match body /hello/ exec stdin "%(H)s" } move "%(R)s/dst"\n'
+        '\tmatch header "X-Kind" /attcond/ and attachment body /hello/ exec stdin "%(H)s" move "%(R)s/dst"\n'
         '\tmatch header "X-Kind" /dest/ move "%(R)s/nonexistent"\n'
         '\tmatch header "X-Kind" /exec/ exec "false" move "%(R)s/dst"\n'
         '\tmatch header "X-Kind" /interp/ move "%(R)s/dst/\\\\9"\n'
         '\tmatch header "X-Kind" /good/ label "ok" move "%(R)s/dst"\n'
         '\tmatch all flag !new\n'
         '}\n'
-        'maildir "%(R)s/src2" {\n\tmatch all move "%(R)s/dst2"\n}\n') % {'R': R}
-PATS = [('date', ''), ('body', ''), ('hello', ''), ('mime', ''), ('deep', ''), ('dest', ''), ('exec', ''), ('interp', ''), ('good', '')]
+        'maildir "%(R)s/src2" {\n\tmatch all move "%(R)s/dst2"\n}\n') % {'R': R, 'H': ws.HELPER}
+PATS = [('date', ''), ('body', ''), ('hello', ''), ('mime', ''), ('deep', ''), ('attblk', ''), ('hello', ''), ('attcond', ''), ('hello', ''),
+        ('dest', ''), ('exec', ''), ('interp', ''), ('good', '')]
 
 
 def deep_mime(depth):
@@ -29,9 +32,62 @@ def deep_mime(depth):
     return inner
 
 
-def defective(kind, i):
+# ---- multipart messages in which ONE part is defective, for the attachment { ... } action block and the attachment condition ----
+# layout: part kinds in order; 'hit' matches body /hello/ (plain or base64), 'miss' does not, 'nest' is a harmless nested multipart,
+# 'b64' has an undecodable base64 body, 'deep' nests multiparts beyond the limit of 4
+LAYOUTS_BAD = {
+    # attachment { } visits every part: an error in any part is an error, whatever the later parts do
+    'attblk': [('b64', 'hit'), ('b64', 'hit', 'hit'), ('hit', 'b64', 'hit'), ('miss', 'b64', 'hit', 'miss'), ('hit', 'b64'), ('b64', 'miss'),
+               ('deep', 'hit'), ('hit', 'deep'), ('nest', 'b64', 'hit')],
+    # attachment <condition> holds iff some part matches: the parts are tried in order, the first match or error decides
+    'attcond': [('b64', 'hit'), ('miss', 'b64', 'hit'), ('b64', 'miss'), ('nest', 'b64', 'hit'), ('deep', 'hit'), ('hit', 'deep'), ('miss', 'b64')],
+}
+LAYOUTS_GOOD = {
+    'attblk': [('hit',), ('miss', 'hit'), ('hit', 'miss', 'hit'), ('nest', 'hit'), ('miss',)],
+    'attcond': [('hit',), ('miss', 'hit'), ('hit', 'b64'), ('nest', 'hit'), ('hit', 'b64', 'hit'), ('miss', 'miss')],
+}
+
+
+def att_part(i, k, kind, rng):
+    tag = b'X-Part: m%dp%d\n' % (i, k)
+    if kind == 'hit':
+        if rng is not None and rng.random() < 0.4:
+            import base64
+            return b'Content-Type: text/plain\nContent-Transfer-Encoding: base64\n' + tag + b'\n' + base64.b64encode(b'hello encoded %d\n' % k) + b'\n'
+        return b'Content-Type: text/plain\n' + tag + b'\nhello from part %d\n' % k
+    if kind == 'miss':
+        return b'Content-Type: text/html\n' + tag + b'\n<p>nothing to see</p>\n'
+    if kind == 'nest':
+        return tag + deep_mime(2)
+    if kind == 'b64':
+        return b'Content-Type: application/octet-stream\nContent-Transfer-Encoding: base64\n' + tag + b'\n!!!! this is not base64 !!!!\n'
+    if kind == 'deep':
+        return tag + deep_mime(6)
+    raise ValueError(kind)
+
+
+def att_message(i, xkind, layout, rng=None):
+    parts = [att_part(i, k + 1, p, rng) for k, p in enumerate(layout)]
+    return (b'To: u%d@x\nX-Id: %d\nX-Kind: %s\nContent-Type: multipart/mixed; boundary="q"\n\n' % (i, i, xkind.encode()) +
+            b''.join(b'--q\n' + p for p in parts) + b'--q--\n')
+
+
+def att_expected_execs(xkind, layout):
+    """Part numbers (0 = the whole message) the documented semantics hands to the command for a message that is NOT defective."""
+    if xkind == 'attblk':
+        return [k + 1 for k, p in enumerate(layout) if p == 'hit']
+    return [0] if 'hit' in layout else []
+
+
+def defective(kind, i, rng=None, layout=None):
     """(file name, content, is_defective)"""
     base = b'To: u%d@x\nX-Id: %d\n' % (i, i)
+    if kind.startswith('att'):
+        xkind, q = kind.split('-')
+        table = LAYOUTS_BAD if q == 'bad' else LAYOUTS_GOOD
+        if layout is None:
+            layout = rng.choice(table[xkind]) if rng is not None else table[xkind][0]
+        return '%d.host' % i, att_message(i, xkind, layout, rng), q == 'bad'
     if kind == 'flags':
         return '%d.host:1,S' % i, base + b'X-Kind: good\n\nbody\n', True
     if kind == 'date':
@@ -55,22 +111,63 @@ def defective(kind, i):
     return '%d.host' % i, base + b'X-Kind: good\n\nbody %d\n' % i, False
 
 
-KINDS_BAD = ['flags', 'date', 'body', 'mime', 'dest', 'exec', 'interp']
-KINDS_GOOD = ['good', 'good', 'good-date', 'good-body', 'good-mime', 'plain']
+KINDS_BAD = ['flags', 'date', 'body', 'mime', 'dest', 'exec', 'interp', 'attblk-bad', 'attcond-bad']
+KINDS_GOOD = ['good', 'good', 'good-date', 'good-body', 'good-mime', 'plain', 'attblk-good', 'attcond-good']
 
 
-def population(rng):
-    n = rng.randrange(1, 7)
+def population(rng, kinds=None):
+    """kinds: None = random population; else a list of (kind, layout or None) - the fixed populations every run contains."""
+    n = rng.randrange(1, 7) if kinds is None else len(kinds)
     msgs, meta = {}, {}
     for i in range(1, n + 1):
-        kind = rng.choice(KINDS_BAD) if rng.random() < 0.4 else rng.choice(KINDS_GOOD)
-        name, data, bad = defective(kind, i)
+        layout = None
+        if kinds is None:
+            kind = rng.choice(KINDS_BAD) if rng.random() < 0.4 else rng.choice(KINDS_GOOD)
+        else:
+            kind, layout = kinds[i - 1]
+        if kind.startswith('att') and layout is None:
+            xkind, q = kind.split('-')
+            layout = rng.choice((LAYOUTS_BAD if q == 'bad' else LAYOUTS_GOOD)[xkind])
+        name, data, bad = defective(kind, i, rng, layout)
         sub = rng.choice(['new', 'cur'])
         if sub == 'cur' and ':' not in name:
             name += ':2,S'
         msgs[(sub, name)] = data
-        meta[i] = (kind, bad, sub, name)
+        meta[i] = (kind, bad, sub, name, layout)
     return msgs, meta
+
+
+def fixed_populations(rng):
+    """Every defective kind (and every layout of the attachment kinds) next to good messages, whatever the seed."""
+    pops = []
+    for kind in KINDS_BAD:
+        if kind.startswith('att'):
+            for layout in LAYOUTS_BAD[kind.split('-')[0]]:
+                pops.append(population(rng, [('good', None), (kind, layout), (kind.replace('bad', 'good'), None)]))
+        else:
+            pops.append(population(rng, [(kind, None), ('good', None)]))
+    for xkind in ('attblk', 'attcond'):
+        for layout in LAYOUTS_GOOD[xkind]:
+            pops.append(population(rng, [(xkind + '-good', layout)]))
+    return pops
+
+
+def execs_by_message(r):
+    """{message id: [part number the command got on stdin (0 = the whole message)]} from the helper's record."""
+    import re as _re
+    from props.c13 import parse_helper
+    res = {}
+    for line in r.helper:
+        argv, stdin, fds, target = parse_helper(line)
+        m = _re.search(rb'^X-Id: (\d+)$', stdin, _re.M)
+        p = _re.search(rb'^X-Part: m(\d+)p(\d+)$', stdin, _re.M)
+        if m:
+            res.setdefault(int(m.group(1)), []).append(0)
+        elif p:
+            res.setdefault(int(p.group(1)), []).append(int(p.group(2)))
+        else:
+            res.setdefault(None, []).append(stdin[:80])
+    return res
 
 
 def run_population(tools, W, msgs, meta):
@@ -106,15 +203,28 @@ def run_population(tools, W, msgs, meta):
             if where_a.get(i) != (rel, d):
                 probs.append('message %s: error-free run puts it at %s, run with defective neighbours at %s' % (i, rel, (where_a.get(i) or ['nowhere'])[0]))
         # defective messages are still there, unchanged (exec: command ran and failed, message stays)
-        for i, (kind, bad, sub, name) in meta.items():
+        execs = execs_by_message(ra)
+        for i, (kind, bad, sub, name, layout) in meta.items():
             if bad:
                 rel = 'src/%s/%s' % (sub, name)
                 if fa.get(rel) != msgs[(sub, name)]:
-                    probs.append('defective message %d (%s) was changed or moved' % (i, kind))
+                    probs.append('defective message %d (%s%s) was changed or moved' % (i, kind, ' parts: ' + ' '.join(layout) if layout else ''))
+                # an evaluation error selects no action: no command runs for that message (kind `exec` IS a command that ran and failed)
+                if kind != 'exec' and execs.get(i):
+                    probs.append('defective message %d (%s%s): the command was run for it (parts %s; 0 = whole message)'
+                                 % (i, kind, ' parts: ' + ' '.join(layout) if layout else '', execs[i]))
+            elif layout is not None:
+                want = att_expected_execs(kind.split('-')[0], layout)
+                if execs.get(i, []) != want:
+                    probs.append('message %d (%s parts: %s): the command ran for parts %s, documented %s (0 = whole message)'
+                                 % (i, kind, ' '.join(layout), execs.get(i, []), want))
+        if None in execs:
+            probs.append('the command ran with an input that is no message or part of the population: %r' % execs[None][:2])
         rq, _, nts = W.request(a, PATS, ra)
         ans = W.verdict([rq])[0]
         conform, detail = world.compare(a, ra, ans)
         return {'kinds': sorted(m[0] for m in meta.values()), 'status': ra.status, 'problems': probs,
+                'messages': {'src/%s/%s' % k: v.decode('latin-1') for k, v in msgs.items()} if probs else None,
                 'conform': conform if conform == 'ok' else conform + ': ' + detail[:300], 'stderr': ra.err[-300:].decode('latin-1')}
     finally:
         a.cleanup()
@@ -169,7 +279,8 @@ def run(rep):
         'because the checks run as root',
     ])
     npop = 40 if rep.tier == 'quick' else 1500
-    pops = [population(rng) for _ in range(npop)]
+    fixed = fixed_populations(random.Random(rep.seed + 1))
+    pops = fixed + [population(rng) for _ in range(npop)]
     results = []
     with cf.ThreadPoolExecutor(vlib.NCPU) as ex:
         results = list(ex.map(lambda p: run_population(tools, W, p[0], p[1]), pops))
@@ -181,7 +292,8 @@ def run(rep):
     corr_bad = []
     for r in results:
         if r['problems']:
-            rep.finding('unlisted', {'population': r['kinds'], 'exit_status': r['status'], 'what': r['problems'][:6], 'stderr': r['stderr']})
+            rep.finding('unlisted', {'population': r['kinds'], 'exit_status': r['status'], 'what': r['problems'][:6], 'stderr': r['stderr'],
+                                     'config': CONF, 'messages': r['messages']})
         elif r['conform'] != 'ok':
             corr_bad.append(r)
     for r in sres:
@@ -198,12 +310,17 @@ def run(rep):
     rep.coverage.update({
         'evaluations': len(results) * 2 + len(sres),
         'distinct_nontrivial': len([r for r in results if r['status'] == 1]) + len([r for r in sres if r['status'] == 75]),
-        'rule': '%d populations of 1-6 messages, each message of one of 7 defective kinds (invalid flag suffix, unparsable Date under a date '
+        'rule': '%d random populations of 1-6 messages, each message of one of 9 defective kinds (invalid flag suffix, unparsable Date under a date '
                 'rule, undecodable base64 under a body rule, MIME nested too deep under an attachment rule, missing destination, failing exec, '
-                'failing interpolation) with probability 0.4, plus a second maildir: exit status 1 iff a defective message is present, the good '
-                'messages end where the run without the defective ones puts them, defective ones untouched, the second maildir processed; '
+                'failing interpolation, a multipart message with ONE defective part - undecodable base64 or nesting beyond 4 - before / between / '
+                'after parts that match, under an attachment { ... exec stdin } action block and under an attachment body condition) with '
+                'probability 0.4, plus %d fixed populations (every defective kind and every part layout next to good messages, whatever the seed), '
+                'plus a second maildir: exit status 1 iff a defective message is present, the good '
+                'messages end where the run without the defective ones puts them, defective ones untouched and no command run for them, for the '
+                'good multipart messages the command ran exactly for the parts the documented semantics selects (helper record), the second '
+                'maildir processed; '
                 'call-by-call conformance with Model.mainP; %d single-fault runs (read/write: also EINTR) of the 5 stdin scenarios judged by the MDA contract (75 / 1 / '
-                '0 only if stored intact or discarded, spool removed); non-trivial = runs that ended with an error status' % (npop, len(sres)),
+                '0 only if stored intact or discarded, spool removed); non-trivial = runs that ended with an error status' % (npop, len(fixed), len(sres)),
         'samples': results[:2] + sres[:2],
         'kinds_exercised': kinds,
         'correspondence_mismatches': len(corr_bad),
